@@ -402,7 +402,7 @@ pub fn c12_history(h: &History, rep: &mut Report) {
 }
 
 pub fn work_c12(ctx: &Ctx, rep: &mut Report) {
-    let prof = Profile::general().with(T_RIS, 1).with(T_MALFORMED, 3).with(T_STR, 4).with(T_SOUP, 3).resizes(0).length((1, 1), (2, 14)).huge(4);
+    let prof = Profile::general().with(T_RIS, 1).with(T_MALFORMED, 3).with(T_STR, 4).with(T_SOUP, 3).resizes(0).length((1, 1), (2, 14)).huge(4).with(T_STBM, 8).with(T_C0, 25);
     let n = ctx.scale(100_000, 5_000_000);
     for u in ctx.units(n) {
         let mut r = Rng::derive(ctx.seed, &[0xC12, 1, u as u64]);
@@ -419,6 +419,8 @@ pub fn work_c12(ctx: &Ctx, rep: &mut Report) {
         "ab\x1b[2bcd", "\x1b(0qx\x1b(Bq", "\x1b[?6h\x1b[3;1Hx", "\x1b7\x1b[5Cz\x1b8w",
         // a number beyond 32 bits, cut between any two of its digits
         "abc\x1b[4294967298Dx", "q\x1b[4294967299b",
+        // runs of identical controls longer than the scroll region they act on (batching of runs)
+        "a\x1b[1;2r\n\n\n\n\n\nb", "ab\x1b[1;2r\x0b\x0c\x1bD\n\x1bD\nq", "abcdefghijkl\x1bM\x1bM\x1bM\x1bM", "\x1b[2;3r\x1b[3H\n\n\n\nxy",
     ];
     let total: usize = shorts.iter().map(|s| 1usize << (s.chars().count() - 1)).sum();
     let mut base = 0usize;
